@@ -986,28 +986,35 @@ impl Memory {
 
     fn load_line_y86(&mut self, expect_loc: u64, line: &str) -> Result<u64, ()> {
         debug!("processing line from yo file {}", line);
-        if &line[0..2] == "0x" && &line[5..7] == ": " && &line[27..29] == " |" {
-            if let Ok(loc) = u64::from_str_radix(&line[2..5], 16) {
+        if let (Some("0x"), Some(loc_chars), Some(": "), Some(hex_chars), Some(" |")) =
+                (line.get(0..2), line.get(2..5), line.get(5..7), line.get(7..27), line.get(27..29)) {
+            if !loc_chars.bytes().all(|c| c.is_ascii_hexdigit()) {
+                debug!("bad address 0x{}", loc_chars);
+                return Err(());
+            }
+            if let Ok(loc) = u64::from_str_radix(loc_chars, 16) {
                 if loc != expect_loc {
                     debug!("loc {} from natural loc {}", loc, expect_loc);
                 }
                 let mut loc = loc;
-                let hex_chars = &line[7..27];
+                let hex_bytes = hex_chars.as_bytes();
                 let mut i = 0;
-                while i < hex_chars.len() && &hex_chars[i..(i+1)] != " " {
-                    if let Ok(byte) = u8::from_str_radix(&hex_chars[i..(i+2)], 16) {
+                while i < hex_bytes.len() && hex_bytes[i] != b' ' {
+                    if i + 1 < hex_bytes.len() &&
+                            hex_bytes[i].is_ascii_hexdigit() && hex_bytes[i + 1].is_ascii_hexdigit() {
+                        let byte = u8::from_str_radix(&hex_chars[i..(i+2)], 16).unwrap();
                         self.data.insert(loc, byte);
                         debug!("loaded {:x} -> {:x}", byte, loc);
                         loc += 1;
                         i += 2;
                     } else {
-                        debug!("non-hexadecimal data {}", &hex_chars[i..(i+2)]);
+                        debug!("non-hexadecimal data in {}", hex_chars);
                         return Err(());
                     }
                 }
                 return Ok(loc);
             } else {
-                debug!("bad address 0x{}", &line[2..5]);
+                debug!("bad address 0x{}", loc_chars);
                 return Err(());
             }
         } else if line.contains("|") && !line.starts_with("                            |") {
